@@ -62,7 +62,26 @@ type world struct {
 	waits                                       int
 }
 
-func (w *world) violate(rule, msg string) { w.k.Violate(rule, msg) }
+// violate reports a violation. In runs made on behalf of C14 (no call may
+// block forever or leave a lock held, pkg/cleaner's idle invoker included)
+// only the kernel-level rules count, under C14's name; the others are C12's
+// and merely counted.
+func (w *world) violate(rule, msg string) {
+	if w.prop == "C14" {
+		switch {
+		case rule == "C12/call-never-returned" && strings.HasPrefix(msg, "all calls returned but locks"):
+			w.k.Violate("C14/mutex-held-at-idle", "[idle invoker] "+msg)
+		case rule == "C12/call-never-returned":
+			w.k.Violate("C14/call-never-returned", "[idle invoker] "+msg)
+		case strings.HasPrefix(rule, "panic:"):
+			w.k.Violate(rule, msg)
+		default:
+			w.r.Count("other_property_rule:"+rule, 1)
+		}
+		return
+	}
+	w.k.Violate(rule, msg)
+}
 
 // me returns the agent on whose goroutine the caller runs.
 func (w *world) me() *agent {
